@@ -5,3 +5,5 @@
 ;; sig rootFileIndex(Int) Int
 (declare-fun rootDocument (Int) Int)
 (declare-fun rootFileIndex (Int) Int)
+;; sig rootFilename(Int) String
+(declare-fun rootFilename (Int) String)
